@@ -32,6 +32,33 @@ class Shard:
         self.case = i
         return self.only is None or self.only == i
 
+    def run_cases(self, n, fn, timeout_s=None):
+        """Run fn(i) for i in range(n) (or only the replayed case) under a per-case wall-clock guard. A case that
+        exceeds the guard is recorded as inconclusive (never as a verdict) and the shard carries on."""
+        import signal
+
+        timeout_s = timeout_s or int(os.environ.get("VERIF_CASE_TIMEOUT", "120"))
+
+        class CaseTimeout(BaseException):
+            pass
+
+        def on_alarm(signum, frame):
+            raise CaseTimeout()
+
+        signal.signal(signal.SIGALRM, on_alarm)
+        for i in range(n):
+            if not self.begin_case(i):
+                continue
+            signal.alarm(timeout_s)
+            try:
+                fn(i)
+            except CaseTimeout:
+                self.count("case_timeouts")
+                if len(self.inconclusive) < 5:
+                    self.inconclusive.append(f"case {i} exceeded the {timeout_s}s wall-clock guard")
+            finally:
+                signal.alarm(0)
+
     def eval(self, key=None, n=1):
         self.evaluations += n
         if key is not None:
